@@ -29,7 +29,6 @@ pub const C_CLEANUP: &str = "cleanup_ignores_branch_refs";
 pub const C_DEPENDENT: &str = "delete_ignores_dependent_refs";
 pub const C_RESERVED: &str = "reserved_dir_segment";
 pub const C_FOREIGN: &str = "create_from_foreign_ref";
-pub const C_COMMIT_MAIN: &str = "branch_commit_checks_out_main";
 
 #[derive(Clone, Debug, PartialEq, Eq, PartialOrd, Ord, Hash)]
 pub enum Loc {
@@ -272,8 +271,6 @@ impl World {
                 None
             }
             StepCtx::CreateBranch(l, true) | StepCtx::CloneTo(l, true) if l == failing => Some(C_FOREIGN),
-            // the commit of a transaction based on an older version of a BRANCH checks out `read_version` of MAIN
-            StepCtx::StaleCommit(l) if matches!(l, Loc::Branch(..)) && (failing == l || *failing == Loc::Main) => Some(C_COMMIT_MAIN),
             _ => None,
         }
     }
@@ -423,8 +420,8 @@ impl World {
                 let pre = self.locs[l].prefix.clone();
                 for p in added.iter().chain(removed.iter()) {
                     if !owned_by(p, &pre) {
-                        let class = if matches!(l, Loc::Branch(..)) && owned_by(p, "ds/") { Some(C_COMMIT_MAIN) } else { None };
-                        bad.push((class, format!("a two-phase append on {} touched {p}", l.show())));
+                        // (repaired by ce3cd96: a stale commit on a branch used to land on main)
+                        bad.push((None, format!("a two-phase append on {} touched {p}", l.show())));
                     }
                 }
             }
@@ -432,8 +429,7 @@ impl World {
                 let pre = format!("ds/tree/{}/", l.branch_name().unwrap_or_default());
                 for p in added.iter().chain(removed.iter()) {
                     if !owned_by(p, &pre) {
-                        let class = if p.starts_with("ds/_transactions/") && p.ends_with(".txn") && !removed.contains(p) { Some(C_COMMIT_MAIN) } else { None };
-                        bad.push((class, format!("a failed create_branch {} touched {p}", l.show())));
+                        bad.push((None, format!("a failed create_branch {} touched {p}", l.show())));
                     }
                 }
             }
@@ -645,25 +641,8 @@ async fn apply(w: &mut World, st: &mut Streams, sink: &mut Sink, rng: &mut Rng, 
                     s.latest = v;
                 }
                 other => {
-                    let class = if stale && matches!(l, Loc::Branch(..)) { Some(C_COMMIT_MAIN) } else { None };
                     w.tainted = true;
-                    sink.oracle_fail(class, "a committed two-phase append is not what the reference reads afterwards", w.case(json!({"reference": l.show(), "stale": stale, "commit": format!("{:?}", r.as_ref().map(|d| (d.uri().to_string(), d.version().version)).map_err(short)), "expected_rows": expect.len(), "got": format!("{:?}", other.map(|(v, r)| (v, r.len())))})));
-                    // main may have received the commit: resynchronise main's latest on what is there now
-                    if class.is_some() {
-                        if let Ok(m) = Dataset::open(&w.root_uri).await {
-                            let v = m.version().version;
-                            let s = w.locs.get_mut(&Loc::Main).unwrap();
-                            if v != s.latest {
-                                match scan_ids(&m).await {
-                                    Ok(rows) => {
-                                        s.snaps.insert(v, rows);
-                                        s.latest = v;
-                                    }
-                                    Err(_) => s.broken = true,
-                                }
-                            }
-                        }
-                    }
+                    sink.oracle_fail(None, "a committed two-phase append is not what the reference reads afterwards", w.case(json!({"reference": l.show(), "stale": stale, "commit": format!("{:?}", r.as_ref().map(|d| (d.uri().to_string(), d.version().version)).map_err(short)), "expected_rows": expect.len(), "got": format!("{:?}", other.map(|(v, r)| (v, r.len())))})));
                 }
             }
         }
@@ -955,8 +934,8 @@ fn random_step(w: &World, rng: &mut Rng) -> Option<Step> {
                 6..=7 => Step::Overwrite(l, rng.range(1, 3) as usize),
                 8 => Step::DeleteRows(l, rng.range(2, 3) as i32),
                 _ if rng.bool() => {
-                    // a stale commit on a branch is a known class (scripted below); on main and on clones it must work
-                    let stale = !matches!(l, Loc::Branch(..)) && rng.bool();
+                    // stale or not, on main, branches and clones alike: the rows must land on the location itself
+                    let stale = rng.bool();
                     Step::TwoPhaseAppend { loc: l, rows: rng.range(1, 2) as usize, stale }
                 }
                 _ => Step::Compact(l),
@@ -1135,9 +1114,10 @@ pub fn run(args: &Args, sink: &mut Sink, rng: &mut Rng) {
             }
             finish_history(&w, &mut st, sink);
         }
-        // a two-phase append on a branch, committed after the branch moved on
-        for variant in 0..args.vol(1, 3) {
-            let mut w = World::new(&format!("known:stale-commit:{variant}"), 3).await;
+        // fixed regression case (repaired by ce3cd96, strict oracle): a two-phase append on a branch, committed after
+        // the branch moved on, lands on the branch; main is untouched
+        for variant in 0..args.vol(2, 3) {
+            let mut w = World::new(&format!("corpus:stale-commit-on-branch:{variant}"), 3).await;
             for _ in 0..(2 + variant) {
                 apply(&mut w, &mut st, sink, rng, Step::Append(main_loc(), 1)).await;
             }
